@@ -467,6 +467,10 @@ def alias_rules(check):
             check.ok("SRC-OWN", "%d add_source functions" % n, "source-callable results are only read")
     if pid == "C20":
         bad = n = 0
+        # a memo table whose key determines every input of the stored value (decided by MEMO) and whose entries are never
+        # handed out (the method returns nothing that IS stored) is not geometry: filling it changes no answer
+        _fs, _st = memo.analyse(proj, [c for c in proj.all_classes() if c.module.short in ("mesh", "mesh2d", "meshbase")])
+        complete = set(_st["covered"]) - {"%s.%s" % (x.func.qualname, x.attr) for x in _fs}
         for ci in proj.all_classes():
             if ci.module.short not in ("mesh", "mesh2d", "meshbase"):
                 continue
@@ -475,6 +479,10 @@ def alias_rules(check):
                     continue
                 n += 1
                 for o, (ln, text, via, kind) in an.summ[f.qualname].mut.items():
+                    attr0 = o[2:].split("[")[0].split(".")[0]
+                    if o.startswith("S:") and kind == "inplace" and "%s.%s" % (f.qualname, attr0) in complete \
+                            and not any(r.startswith("S:" + attr0) for r in (an.summ[f.qualname].ret.objs | an.summ[f.qualname].ret.elts)):
+                        continue
                     if o.startswith("S:") and kind == "inplace":
                         bad += 1
                         check.violation("MESH-FROZEN", f.qualname, "a query method changes the mesh object (`%s`, line %d%s): geometry returned afterwards differs from the constructed partition" % (text, ln, (", through %s" % via) if via else ""),
